@@ -65,6 +65,8 @@ class Session(object):
         with open(path, "r", encoding="utf-8") as f:
             mi.src = f.read()
         mi.tree = ast.parse(mi.src)
+        if spec.get("auto"):
+            self.auto_declare(mi, spec)
         for cls, cspec in mi.classes.items():
             self.class_of[cls] = mi
             for fld, t in cspec.get("fields", {}).items():
@@ -99,6 +101,50 @@ class Session(object):
                 self.by_name.setdefault(qn, []).append(c)
                 mi.functions[qn] = c
         self.obj_attrs.update(mi.obj_attrs)
+
+    def auto_declare(self, mi, spec):
+        """mechanical declarations read from the module's AST: ALL_CAPS module constants and imported names are opaque
+        objects; namedtuple(...) and class constructors are opaque constructors (total, no exception)"""
+        lib = spec.setdefault("library", {})
+        for n in mi.tree.body:
+            if isinstance(n, ast.Assign) and len(n.targets) == 1 and isinstance(n.targets[0], ast.Name):
+                nm = n.targets[0].id
+                v = n.value
+                if isinstance(v, ast.Call) and getattr(v.func, "id", "") == "namedtuple" and len(v.args) >= 2 and isinstance(v.args[1], (ast.List, ast.Tuple)):
+                    fields = [e.value for e in v.args[1].elts if isinstance(e, ast.Constant)]
+                    nd = 0
+                    for kw in v.keywords:
+                        if kw.arg == "defaults" and isinstance(kw.value, (ast.List, ast.Tuple)):
+                            nd = len(kw.value.elts)
+                    c = {"params": fields, "types": dict((f, "Obj") for f in fields), "returns": "Obj", "ensures": [],
+                         "defaults": dict((f, "None") for f in fields[len(fields) - nd:]) if nd else {}, "none_ok": True}
+                    lib.setdefault(nm, c)
+                    mi.consts.setdefault(nm + "$class", ("Opaque", "Obj"))
+                elif nm.isupper() or (nm[:1].isupper() and "_" in nm):
+                    if isinstance(v, ast.Constant) and isinstance(v.value, str):
+                        mi.consts.setdefault(nm, ("Str", v.value))
+                    elif isinstance(v, ast.Constant) and isinstance(v.value, int) and not isinstance(v.value, bool):
+                        mi.consts.setdefault(nm, ("Int", v.value))
+                    else:
+                        mi.consts.setdefault(nm, ("Opaque", "Obj"))
+            elif isinstance(n, ast.ClassDef) and n.name not in mi.classes:
+                init = None
+                for b in n.body:
+                    if isinstance(b, ast.FunctionDef) and b.name == "__init__":
+                        init = b
+                params, defaults = [], {}
+                if init is not None:
+                    a = init.args
+                    params = [x.arg for x in a.args][1:]
+                    for pn, d in zip(reversed(a.args), reversed(a.defaults)):
+                        defaults[pn.arg] = ast.unparse(d)
+                lib.setdefault(n.name, {"params": params, "types": dict((f, "Obj") for f in params), "returns": "Obj", "ensures": [],
+                                        "defaults": defaults, "none_ok": True})
+            elif isinstance(n, (ast.ImportFrom, ast.Import)):
+                for al in n.names:
+                    nm = al.asname or al.name
+                    if nm[:1].isupper() and nm not in lib:
+                        mi.consts.setdefault(nm, ("Opaque", "Obj"))
 
     def find_def(self, mi, qualname):
         parts = qualname.split(".")
